@@ -8,7 +8,10 @@ CONF = dict(
  'at chosen virtual instants spanning up to many months: steps of 0/1 ns .. hours, idle gaps of 24/48/72/96 h, 10 and 30 days (+-1 ns), and instants placed on '
  'the boundaries of keys seen earlier (generation + 24 h, NotAfter, hand-out + 48 h, each +-1 ns / +-seconds); Get of ids handed out earlier, of the id just '
  'handed out, and of ids never issued (0, -1, current+1, current+2, 2^16.., MinInt/MaxInt); sparse-traffic and steady-traffic styles; concurrent histories: at '
- 'each instant 1..8 goroutines released together, each making one call (incl. Get of the id a rotation at that very instant would create). Also Key.IsValidAt '
+ 'each instant 1..8 goroutines released together, each making 1..5 calls (incl. Get of the id a rotation at that very instant would create and of the key '
+ "its own Current just returned); a share of the histories starts up to five days before a daylight-saving change of the process's local zone "
+ '(Europe/Zurich, zone database compiled in); one history (thorough: three) with > 65536 rotations and Gets around the 2^16-th key (kind prov.long, one-pass '
+ 'oracle). Also Key.IsValidAt '
  'on (NotBefore, NotAfter, t) triples at the edges, and one source check of the lock discipline. Non-trivial: a history with at least one rotation and at least '
  'one Get of a key that Current had handed out (tags b24/b48/b72/exp/gap/weird count the boundary hits); IsValidAt within 1 ns of an edge; distinct = distinct '
  '(kind, input)'),
@@ -23,7 +26,8 @@ CONF = dict(
     technique=('Coq proof by one inductive invariant over arbitrary Current/Get histories with non-decreasing clock readings (generation log newest-first with ids +1 and '
  'generation times > 24 h apart; every generated key that is still valid is in the map unchanged; map entries are log entries); executable property oracle '
  'proved to accept every model history; interleaving semantics of the mutex with clock ticks, proved serialisable in lock order with monotone readings; '
- 'group-acceptance check for same-instant concurrent calls proved complete (any lock order accepted) and sound (accepted chains meet the oracle); differential '
+ 'group-acceptance check for same-instant concurrent calls (several per goroutine) proved complete (any lock order accepted) and sound (accepted chains meet the oracle); '
+ 'one-pass oracle for 2^16+ rotations proved to decide id uniqueness; differential '
  'execution of the extracted model against the real Provider under synctest virtual time'),
     level_text=('Theorems hold for every history of Current/Get calls (any length, any ids, any non-decreasing clock readings, any idle gaps) and for every interleaving of '
  'any number of goroutines through the lock: handed-out key valid now, generated <= 24 h ago, valid 3 days; Get only while valid and only generated keys; ids '
@@ -38,5 +42,5 @@ CONF = dict(
  'Current ids never decrease; key handed out at t is returned unchanged by every Get up to t + 48 h and by none after generation + 72 h.'),
     timeout_quick=600,
     timeout_thorough=3000,
-    min_cases={'prov.conc': 270, 'prov.hist': 780, 'prov.lock': 1, 'prov.valid': 900},
+    min_cases={'prov.conc': 270, 'prov.hist': 780, 'prov.lock': 1, 'prov.long': 1, 'prov.valid': 900},
 )
